@@ -148,7 +148,18 @@ pub fn run(rep: &mut Report, thorough: bool) {
     let shapes = if thorough { 100 } else { 2 };
     for shape in 0..shapes {
         let cfg = TargetCfg { sentinels: 1 + (shape % 4) * 2, max_spinners: 0, heartbeats: 0, sleepers: shape % 3, exiters: 0, names: true, regions: 2, elf_files: shape % 2, fds: 2 + shape, stack_pages_max: 2, null_sp_threads: 0, big_region_pages: 0 };
-        let sc = match scen::build_target(&mut rng, &cfg) {
+        // two pages with linker chains whose data is readable but unusable: a library name that is
+        // not UTF-8, a name that runs into the end of the mapping
+        let mut bad_chains: Vec<(u64, u64, String)> = Vec::new();
+        let sc = match scen::build_target_with(&mut rng, &cfg, |b, rng| {
+            for v in [4u64, 5] {
+                let i = b.anon(1, 2, 6, crate::spec::Fill::Zero);
+                let base = b.spec.regions[i].addr;
+                let (pokes, phdr, phnum, what) = crate::props::c02::hostile_chain(rng, base, v);
+                b.spec.regions[i].pokes = pokes;
+                bad_chains.push((phnum, phdr, what));
+            }
+        }) {
             Ok(s) => s,
             Err(e) => {
                 rep.inconclusive(format!("target did not start: {e}"));
@@ -256,6 +267,11 @@ pub fn run(rep: &mut Report, thorough: bool) {
         }
         if t.manifest.at_phdr != 0 {
             tables.push((1, t.manifest.at_phdr)); // PT_PHDR only: the dynamic segment comes later
+        }
+        // variant 4 only: its library name is not valid UTF-8, so the step fails (variant 5's name is
+        // merely cut short by the end of the mapping, which is not a failure)
+        if let Some((phnum, phdr, _)) = bad_chains.first() {
+            tables.push((*phnum, *phdr));
         }
         for (phnum, phdr) in tables {
             let mut o = base_opts.clone();
